@@ -236,6 +236,26 @@ def run(ctx):
            what="the open path reopens the newest log in append mode without first truncating it to its last valid record "
                 "(File::set_len): records written after a crash land behind the torn bytes and are lost at the next open",
            where=wc.loc())
+    # every way out of the repair routine's scan reaches the length comparison / truncation: a scan exit that
+    # returns directly leaves a partial record (e.g. 1-3 bytes of a length prefix) in front of the next append
+    for fid in direct:
+        f = P.fns[fid]
+        if f.impl_self != common.WAL:
+            continue
+        fx = FlowCx(P, f)
+        scans = [bi for bi, t in f.calls() if callee_name(t).split("::")[-1] == "read_exact"]
+        targets = {bi for bi, t in f.calls() if callee_name(t) == "std::fs::File::set_len"}
+        from .flow import edge_conditions
+        for sl in list(targets):
+            for (a, s_) in edge_conditions(f, sl):
+                c = fx.cond_of_switch(a)
+                if c["kind"] == "cmp" and any(x.startswith("call:") and x.endswith("Metadata::len") for x in (c["a"] | c["b"])):
+                    targets.add(a)
+        exits = set(f.exits())
+        ok = bool(scans) and all(must_pass(f, f.blocks[sb]["t"]["t"], targets, exits) for sb in scans if f.blocks[sb]["t"].get("t") is not None)
+        ctx.ob("R6", "%s#every-scan-exit-truncates" % short_id(fid), ok,
+               what="the tail-repair routine can leave its record scan and return without comparing the valid length with the file "
+                    "length: a partial record (even 1-3 bytes of a length prefix) stays in front of the next append", where=f.loc())
     # the repair routine stops at the first record whose checksum does not match
     for fid in direct:
         f = P.fns[fid]
